@@ -49,6 +49,46 @@ CLAIMS = {
              'table (A+2, an extra +eps, A<=L, a missing -A, rem != C-eps are violations). Existence of the '
              'witness schedule is not decided.',
         ref='7/C18'),
+    'C04': dict(
+        technique='abstract interpretation of typed HIR to canonical terms + directional comparison with the paper\'s right-hand sides',
+        text='For the four ECRTS\'19 entry points (through the shared helper, inlined): busy-window rhs (Lemma 6), per-offset rhs '
+             '(Lemmas 1, 3, 4/5, 8) with own demand at A+1 and interference window A+1+(r -. least_wcet(A+r)), offset '
+             'coupling between search_with_offset and the rhs, supply/limit plumbing, `?`, search space = steps of the '
+             'demand under analysis - 1 while A <= max busy window, max_response_time. Unsafe-direction deviations are '
+             'violations. Not decided: executor behaviour, the supply-bound inverse (C09).',
+        ref='7/C04'),
+    'C05': dict(
+        technique='abstract interpretation of typed HIR to canonical terms + directional comparison with the paper\'s definitions',
+        text='rr and bw subchain analyses (RTSS\'21): direct / busy-window interference with the polling-point caps per '
+             'callback kind (Defs 1, 5), self-interference (Def 2), polling-point bound (Def 3), own-workload bound (Lemma 18), '
+             'S* rhs, R* = service_time(sbf(S*) -. 1 + marginal cost), -t_a only for singleton subchains, priority direction '
+             '(interfering, interfered-with; a < b), end-of-chain counted exactly once, bw search space (Lemma 19) and its '
+             'bound, is_pp/kind-table agreement; in the debug and the release configuration. Unsafe-direction deviations '
+             'are violations.',
+        ref='7/C05'),
+    'C07': dict(
+        technique='abstract interpretation to canonical terms; exact comparison with the papers\' definitions',
+        text='Exactness clauses over ecrts19.rs, rr.rs, bw.rs: every recovered right-hand side, result expression, '
+             'search-space source/shift/bound equals the table (inclusive A <= max_bw in ecrts19, strict t_a < max_offset '
+             'in bw, eoc counted exactly once); Err only from search, propagated by `?`; limit unmodified.',
+        ref='7/C07'),
+    'C08': dict(
+        technique='one-symbolic-iteration loop summaries with path conditions (dataflow over typed HIR), both build configurations',
+        text='Ten dataflow clauses over fixed_point.rs and the default SupplyBound::service_time, each necessary for C08: '
+             'start value 1; inclusive loop guard; Ok only under bound <= assumed with payload service_time(w(assumed)) - '
+             'offset; sole update := bound on the complementary branch; divergence_limit never reaches an Ok payload '
+             '(non-interference); Err payload and who-may-construct; search == search_with_offset at offset 0 in dbg and '
+             'rel; max_response_time comparator table / default / no adaptor; agreement with the debug linear scan; default '
+             'service_time start/return/step. Leastness for numeric workloads is not decided.',
+        ref='7/C08'),
+    'C19': dict(
+        technique='sibling comparison: term identity under substitution; signature/use analysis for supply-parametricity',
+        text='Each reduction named by C19 for FP and EDF (LP last:=1,B:=0 = P; LP last:=C = NP; LP last:=1 = FNP; EDF with all '
+             'segments 1 resp. = WCET) is decided as an identity of the recovered canonical terms (BW, OFF, result, search '
+             'space) under substitution. Every ROS 2 entry point takes its supply as a type parameter bounded by SupplyBound '
+             'only and uses it only through provided_service/service_time/search*. The numeric agreements (supply '
+             'equivalences as functions, NP-EDF max = FIFO, event source = FIFO) are not decided.',
+        ref='7/C19'),
 }
 
 NOT_YET = 'clauses designed in DESIGN.md section 7 but not yet implemented in this commit'
